@@ -16,7 +16,7 @@ from .common import QUEUES, STREAMER
 def declare(ck: Checker, p='C01'):
     ck.rule(f'{p}-1', 'pair freshness: the future enqueued with an element was produced from that element in this iteration (FRESH+ORIGIN)')
     ck.rule(f'{p}-2', 'exactly one hand-off per element on every completed iteration, none on leaving paths (COUNT)')
-    ck.rule(f'{p}-3', 'consumer pairing: unpack order, result from that very future, one yield per dequeue (FRESH+COUNT+AGREE)', minimum=3)
+    ck.rule(f'{p}-3', 'consumer pairing: unpack order, result from that very future, one yield per dequeue, loop ends only on the end marker (FRESH+COUNT+AGREE)', minimum=4)
     ck.rule(f'{p}-5', 'single producer / single consumer on the hand-off queue; one feeder (WHO)')
 
 
